@@ -55,7 +55,7 @@ def _min_dtype_for_encoding(data_encoding: encodings.DataEncoding):
     elif isinstance(data_encoding, encodings.BinaryDataEncoding):
         datatype = "bytes"
     elif isinstance(data_encoding, encodings.StringDataEncoding):
-        datatype = "str"
+        datatype = "bytes"  # The raw value of a string is its undecoded buffer
     else:
         raise ValueError(f"Unrecognized data encoding type {data_encoding}.")
 
